@@ -14,7 +14,7 @@
 import AgeModel.GoSem
 import AgeModel.Stream
 import AgeModel.Extracted.Funcs
-import Proofs.GoTieMisc
+import Proofs.GoTieNonce
 import Proofs.GoTieStreamR
 namespace AgeModel
 namespace GoTie
